@@ -8,7 +8,7 @@ backslashes, `~`, non-ASCII).  A renderer that follows docs/concepts/filters.md 
 whitespace around operators / after `!` / inside parentheses, minimal parentheses by the documented precedence plus
 redundant ones, regexes unquoted when they contain no reserved character, else single- or double-quoted with the quote
 character and the backslash escaped.
-Oracle: flowfilter.parse(text) succeeds and for each of 42 flows of every type (built from plain specs) plus two
+Oracle: flowfilter.parse(text) succeeds and for each of 44 flows of every type (built from plain specs) plus two
 case-specific flows the verdict equals lib/ref_filter.eval_tree(tree, spec) - an independent evaluator working on the
 spec only.
 """
@@ -22,7 +22,7 @@ LEVEL = "exploration"
 RULE = ("every 2-/3-leaf tree (one of two renderings in the quick tier, both in the thorough tier) over & | juxtaposition with every placement of ! (exhaustive), plus "
         "Hypothesis trees (<=7 atoms, paren nesting <=2) over all 14 unary, 17 regex, ~c and naked-regex atoms with "
         "! & | juxtaposition and redundant parentheses, rendered with varied whitespace (space, tab, CR, LF between tokens, after arguments and around the expression)/parenthesisation/quoting, each "
-        "evaluated on 42 pool flows (incl. HTTP bodies whose Content-Encoding header fits / does not fit the bytes) of all types + 2 case-specific flows; non-trivial = tree has >=2 different "
+        "evaluated on 44 pool flows (incl. repeated header fields and HTTP bodies whose Content-Encoding header fits / does not fit the bytes) of all types + 2 case-specific flows; non-trivial = tree has >=2 different "
         "connectives or a parenthesised group; distinct by (tree shape, rendered text)")
 ASSUMPTIONS = [
     "Python `re` is the regex semantics (reference and implementation both use it); binary parts are matched with the "
